@@ -143,28 +143,223 @@ func init() {
 	})
 	closeScenario("c14/during-failing-reconnects", true, nil, func(t *T, p *Peer, cl closer) bool {
 		p.Refuse(true)
-		for _, pc := range p.Conns() {
-			pc.Drop()
-		}
+		p.DropAll()
 		t.Sleep(25) // between failed attempts (the code sleeps 1 s between them)
 		return true
 	})
 	closeScenario("c14/during-failing-reconnects-2", false, nil, func(t *T, p *Peer, cl closer) bool {
 		p.Refuse(true)
-		for _, pc := range p.Conns() {
-			pc.Drop()
-		}
+		p.DropAll()
 		t.Sleep(3) // right after the first failed attempt
 		return true
 	})
 	closeScenario("c14/hit-max-about-to-fire", true, func(c *clientCfg) { c.MaxReconnect = 1 }, func(t *T, p *Peer, cl closer) bool {
 		p.Refuse(true)
-		for _, pc := range p.Conns() {
-			pc.Drop()
-		}
+		p.DropAll()
 		t.Sleep(19) // the second attempt (which hits the maximum) is due at ~20 units
 		return true
 	})
+	// Close while a re-dial is pending and slow (WebSocket: the HTTP upgrade of connection #2 is withheld until after Close returned):
+	// either the re-dial sees the signal or Close closes the connection it installed — no frame, no open connection afterwards
+	register(&scenario{Name: "c14/close-during-slow-dial", Props: []string{"C14", "C16"}, Quick: true, Transports: []string{"ws"}, Run: func(t *T) {
+		p := newPeer(t, t.Transport, t.Version)
+		defer p.Shutdown()
+		release := make(chan struct{})
+		p.slowUpgrade = func(n int) {
+			if n == 2 {
+				<-release
+			}
+		}
+		p.onFrame = func(pc *peerConn, f frameIn) {
+			if stdReply(pc, f) {
+				return
+			}
+			if f.Typ == 1 && f.Cmd == 130 {
+				pc.Drop()
+			}
+		}
+		cfg := defaultCfg()
+		cfg.Token = true
+		cfg.DialTimeoutU = 30
+		cl, err := t.NewClient(p, cfg)
+		if err != nil {
+			close(release)
+			t.Check("setup", false, "dial: %v", err)
+			return
+		}
+		t.DoAsync(cl, "drop", 130, 2)
+		// wait until the re-dial is pending at the peer
+		ok := false
+		for i := 0; i < 200 && !ok; i++ {
+			time.Sleep(t.U(1) / 5)
+			ok = p.Dials() >= 2
+		}
+		if !ok {
+			close(release)
+			t.Check("setup", false, "the client did not start a re-dial")
+			return
+		}
+		closed := make(chan time.Time, 1)
+		go func() { cl.Close(nil); closed <- time.Now() }()
+		time.Sleep(t.U(6))
+		close(release) // the slow dial completes now
+		var at time.Time
+		select {
+		case at = <-closed:
+		case <-time.After(t.U(80)):
+			t.Check("close_prompt", false, "Close did not return")
+			return
+		}
+		t.Sleep(20)
+		// after Close returned: connection #2 must carry no frame and must not stay open
+		for _, pc := range p.Conns() {
+			if pc.N >= 2 {
+				nf := 0
+				for _, f := range pc.Frames() {
+					if f.At.After(at.Add(t.U(1))) {
+						nf++
+					}
+				}
+				t.Check("close_final:no_frame", nf == 0, "connection #%d (whose dial completed after Close was called) received %d frame(s) more than a unit after Close had returned", pc.N, nf)
+				t.Check("close_final:conn_closed", pc.Ended(), "connection #%d, installed by the re-dial that completed after Close was called, is still open", pc.N)
+			}
+		}
+		t.Check("on_close_once", atomic.LoadInt32(&t.onClose) == 1, "close callback ran %d times", atomic.LoadInt32(&t.onClose))
+		t.Check("close_final:no_after_reconnected", atomic.LoadInt32(&t.afterRec) == 0, "after-reconnect callback ran after Close")
+		t.Join()
+	}})
+
+	// Close while the recovery is authenticating: the successful answer to the resume request is already queued behind a busy
+	// push handler of the new connection; it is drained after Close returned — the reconnect must not be reported
+	for _, trigger := range []string{"close-packet", "drop"} {
+		trigger := trigger
+		register(&scenario{Name: "c14/close-during-authenticating-" + trigger, Props: []string{"C14", "C08"}, Quick: true, Run: func(t *T) {
+			p := newPeer(t, t.Transport, t.Version)
+			defer p.Shutdown()
+			gate := make(chan struct{})
+			var inHandler int32
+			p.onFrame = func(pc *peerConn, f frameIn) {
+				if f.WsKind != "" && f.WsKind != "binary" {
+					stdReply(pc, f)
+					return
+				}
+				if f.Typ != 1 {
+					return
+				}
+				switch {
+				case f.Cmd == 2:
+					pc.Send(respFrame(f, 0, authBody("session-A", time.Hour)))
+				case f.Cmd == 3 && pc.N >= 2: // a push first (its handler blocks), then the successful answer
+					pc.Send(pushFrame(50, []byte("busy")))
+					pc.Send(respFrame(f, 0, authBody("session-B", time.Hour)))
+				case f.Cmd == 130:
+					if trigger == "drop" {
+						pc.Drop()
+					} else if pc.ws != nil {
+						pc.WsControl(8, []byte{0x03, 0xe8})
+					} else {
+						pc.Send(pushFrame(0, nil))
+					}
+				}
+			}
+			cfg := defaultCfg()
+			cfg.Token = true
+			cfg.AuthTimeoutU = 40
+			cfg.Handlers = map[uint32][]func(*protocol.Packet){50: {func(*protocol.Packet) {
+				atomic.StoreInt32(&inHandler, 1)
+				<-gate
+			}}}
+			cl, err := t.NewClient(p, cfg)
+			if err != nil {
+				close(gate)
+				t.Check("setup", false, "dial: %v", err)
+				return
+			}
+			t.DoAsync(cl, "loss", 130, 2)
+			for i := 0; i < 300 && atomic.LoadInt32(&inHandler) == 0; i++ {
+				time.Sleep(t.U(1) / 5)
+			}
+			if atomic.LoadInt32(&inHandler) == 0 {
+				close(gate)
+				t.Check("setup", false, "the recovery did not reach its authenticating phase with the handler busy")
+				return
+			}
+			start := time.Now()
+			at, ok := doClose(t, cl, 100)
+			took := at.Sub(start)
+			if !ok {
+				close(gate)
+				return
+			}
+			t.Check("timing:close_prompt", took <= t.U(8), "Close took %v while a recovery was authenticating (auth timeout %v): it must not wait for the recovery's request", took, t.U(cfg.AuthTimeoutU))
+			after := atomic.LoadInt32(&t.afterRec)
+			t.Sleep(6)
+			close(gate) // the closed connection's dispatcher drains its queue now: the resume request 'succeeds'
+			t.Sleep(10)
+			t.Check("close_final:no_after_reconnected", atomic.LoadInt32(&t.afterRec) == after, "the reconnect was reported %d time(s) after Close had returned", atomic.LoadInt32(&t.afterRec)-after)
+			t.Check("on_close_once", atomic.LoadInt32(&t.onClose) == 1, "close callback ran %d times", atomic.LoadInt32(&t.onClose))
+			t.Join()
+		}})
+	}
+
+	// Close while a recovery is waiting for the answer to its resume request AND a second notifier of the same loss arrives:
+	// the late notifier must not queue for the write lock behind the recovery's request (a pending writer would block Close's
+	// read lock until the auth timeout). Forced with the gate at the entry of reconnecting (one notifier released at a time).
+	register(&scenario{Name: "c14/close-vs-late-loss-notifier", Props: []string{"C14", "C06"}, Quick: true, Run: func(t *T) {
+		p := newPeer(t, t.Transport, t.Version)
+		defer p.Shutdown()
+		resume := make(chan struct{}, 4)
+		p.onFrame = func(pc *peerConn, f frameIn) {
+			if f.WsKind != "" && f.WsKind != "binary" {
+				stdReply(pc, f)
+				return
+			}
+			if f.Typ != 1 {
+				return
+			}
+			switch {
+			case f.Cmd == 2:
+				pc.Send(respFrame(f, 0, authBody("session-A", time.Hour)))
+			case f.Cmd == 3: // the resume request: never answered
+				resume <- struct{}{}
+			case f.Cmd == 130:
+				pc.Drop()
+			}
+		}
+		cfg := defaultCfg()
+		cfg.Token = true
+		cfg.AuthTimeoutU = 60
+		cl, err := t.NewClient(p, cfg)
+		if err != nil {
+			t.Check("setup", false, "dial: %v", err)
+			return
+		}
+		verifhook.Hold("reconnecting:enter")
+		defer verifhook.Release("reconnecting:enter")
+		t.DoAsync(cl, "loss", 130, 2)
+		if !verifhook.WaitParked("reconnecting:enter", 2, t.U(40)) {
+			t.Check("setup", false, "the loss was not reported by two notifiers")
+			return
+		}
+		verifhook.ReleaseOne("reconnecting:enter") // the first notifier starts the recovery
+		select {
+		case <-resume:
+		case <-time.After(t.U(40)):
+			t.Check("setup", false, "the recovery did not send its resume request")
+			return
+		}
+		verifhook.ReleaseOne("reconnecting:enter") // the late notifier arrives while the resume request is in flight
+		t.Sleep(2)
+		start := time.Now()
+		at, ok := doClose(t, cl, 100)
+		if ok {
+			took := at.Sub(start)
+			t.Check("close_prompt", took <= t.U(20), "Close took %v (auth timeout %v): it waited behind a late loss notifier queued for the write lock, i.e. for the recovery's unanswered request", took, t.U(cfg.AuthTimeoutU))
+		}
+		verifhook.Release("reconnecting:enter")
+		t.Join()
+	}})
+
 	// the client gives up on its own: the close callback must run exactly once with the hit-max error, nothing may panic
 	register(&scenario{Name: "c14/hit-max-gives-up", Props: []string{"C14", "C08", "C16"}, Quick: true, Run: func(t *T) {
 		p := newPeer(t, t.Transport, t.Version)
@@ -178,9 +373,7 @@ func init() {
 			return
 		}
 		p.Refuse(true)
-		for _, pc := range p.Conns() {
-			pc.Drop()
-		}
+		p.DropAll()
 		t.Sleep(70) // 2 failed attempts (1 s apart) + the give-up
 		t.Check("hitmax_reported", atomic.LoadInt32(&t.onClose) == 1, "after MaxReconnect failed attempts the close callback ran %d times (want once, with the hit-max error)", atomic.LoadInt32(&t.onClose))
 		hit := false
@@ -226,9 +419,7 @@ func init() {
 			return
 		}
 		// the peer drops: the reader closes the connection while the writer sits between the check and the send
-		for _, pc := range p.Conns() {
-			pc.Drop()
-		}
+		p.DropAll()
 		t.Sleep(4)
 		verifhook.Release("conn.write:before-enqueue")
 		ok := t.JoinTimeout(60)
